@@ -45,8 +45,15 @@ type Hist struct {
 
 type Outcome struct {
 	Obs      []fd.Obs `json:"obs"`
+	Eff      []fd.Op  `json:"eff,omitempty"` // the syncs that happened (an announce2 op is two)
 	Late     []fd.Ev  `json:"late,omitempty"`
 	Unstable bool     `json:"unstable,omitempty"`
+	Why      string   `json:"why,omitempty"` // what made the timing suspicious
+	// scheduling probe of the worker process during the (last attempt of the) history: a
+	// goroutine sleeps 2 ms over and over and records by how much each sleep overshoots
+	ProbeMaxMs  float64 `json:"probe_max_ms,omitempty"`
+	ProbeN      int     `json:"probe_n,omitempty"`
+	ProbeOver10 int     `json:"probe_over10,omitempty"` // samples that overshot by more than 10 ms
 	Suspicious bool   `json:"suspicious,omitempty"`
 	Crash    string   `json:"crash,omitempty"` // the worker process died while running this history: panic text
 	Hung     bool     `json:"hung,omitempty"`
@@ -82,8 +89,9 @@ func (wk *worker) runOnce(h *Hist) Outcome {
 		o.Alive = h.Alive
 		ops[i] = o
 	}
-	obs, late := w.History(h.Cfg, ops)
-	out := Outcome{Obs: obs, Late: late}
+	eff, obs, late := w.History(h.Cfg, ops)
+	out := Outcome{Obs: obs, Late: late, Eff: eff}
+	annOK := map[int]bool{} // heads whose announce-triggered sync succeeded: later announces are duplicates
 	for oi, o := range obs {
 		// A client timeout that fires on a request that was not made to stall (machine
 		// load) changes what the code under test sees.  It costs the whole client timeout,
@@ -94,54 +102,161 @@ func (wk *worker) runOnce(h *Hist) Outcome {
 				stalls++
 			}
 		}
-		budget := stalls*int(fd.ClientTimeout/time.Millisecond) + 170
-		if o.Slow || (o.Result != "noevent" && o.Millis > budget) {
-			out.Unstable = true
+		ct := int(fd.ClientTimeout / time.Millisecond)
+		budget := stalls*ct + ct*85/100
+		if o.Slow {
+			out.Unstable, out.Why = true, "an un-faulted upstream answer took more than a third of the client timeout"
+		} else if o.Result != "noevent" && o.Millis > budget {
+			out.Unstable, out.Why = true, fmt.Sprintf("sync %d took %d ms, its %d stall(s) explain %d ms", oi, o.Millis, stalls, stalls*ct)
+		}
+		// a success notification that did not arrive after an explicit sync returned nil:
+		// late or missing; run again with longer waits to tell
+		if eff[oi].Mode == "explicit" && o.Result == "ok" && o.Cid != o.Latest0 && len(o.Events) == 0 {
+			out.Suspicious = true
 		}
 		// No notification for an announcement of a head that is not synced: either a
 		// defect or a notification that came too late; run again to tell them apart.
-		if o.Result == "noevent" && o.Latest0 != h.Ops[oi].Head {
+		if o.Result == "noevent" && o.Latest0 != eff[oi].Head && !annOK[eff[oi].Head] {
 			out.Suspicious = true
+		}
+		if eff[oi].Mode != "explicit" {
+			for _, e := range o.Events {
+				if !e.Err {
+					annOK[e.Cid] = true
+				}
+			}
 		}
 	}
 	return out
 }
 
-// run repeats a history whose timing was suspicious (an un-faulted request slow enough to
-// risk the client timeout).
-func (wk *worker) run(h *Hist) Outcome {
+// ProbeLimitMs: a history during which the worker process was kept from running for longer
+// than this (sleep overshoot) is not trusted: the 200 ms client timeout and the "nothing
+// happened" looks are wall-clock decisions.
+const ProbeLimitMs = 40
+
+// run repeats a history whose timing was suspicious, each time with longer waits.
+func (wk *worker) run(j *job) Outcome {
 	var out Outcome
-	for try := 1; try <= 4; try++ {
-		out = wk.runOnce(h)
+	if j.TimeoutMs > 0 {
+		fd.ClientTimeout = time.Duration(j.TimeoutMs) * time.Millisecond
+	}
+	tries := j.Tries
+	if tries == 0 {
+		tries = 3
+	}
+	for try := 1; try <= tries; try++ {
+		fd.WaitScale = j.Scale + try - 1
+		if fd.WaitScale < 1 {
+			fd.WaitScale = 1
+		}
+		theProbe.reset()
+		out = wk.runOnce(j.H)
 		out.Tries = try
-		if !out.Unstable && !(out.Suspicious && try < 3) {
+		out.ProbeMaxMs, out.ProbeN, out.ProbeOver10 = theProbe.window()
+		if out.ProbeMaxMs > ProbeLimitMs && !out.Unstable {
+			out.Unstable, out.Why = true, fmt.Sprintf("the worker process was kept from running for %.0f ms during the history", out.ProbeMaxMs)
+		}
+		if !out.Unstable && !(out.Suspicious && try < tries) {
 			break
 		}
 	}
 	return out
 }
 
-func runAll(seed uint64, hs []*Hist, nw int) []Outcome {
+type probeSum struct {
+	n, over10 int
+	max       float64
+	hist      int // histories
+	histOver  int // histories whose window maximum exceeded ProbeLimitMs
+}
+
+func (p *probeSum) add(o Outcome) {
+	p.n += o.ProbeN
+	p.over10 += o.ProbeOver10
+	if o.ProbeMaxMs > p.max {
+		p.max = o.ProbeMaxMs
+	}
+	p.hist++
+	if o.ProbeMaxMs > ProbeLimitMs {
+		p.histOver++
+	}
+}
+
+func (p *probeSum) String() string {
+	pct := 0.0
+	if p.n > 0 {
+		pct = 100 * float64(p.over10) / float64(p.n)
+	}
+	return fmt.Sprintf("%d sleep samples, %.2f%% overshot by > 10 ms, worst %.0f ms, %d of %d histories saw > %d ms", p.n, pct, p.max, p.histOver, p.hist, ProbeLimitMs)
+}
+
+// loaded: the machine kept the workers from running often enough to explain timing trouble
+func (p *probeSum) loaded() bool {
+	return p.n == 0 || float64(p.over10) > 0.005*float64(p.n) || p.histOver*50 > p.hist
+}
+
+type runStats struct {
+	first, second   probeSum
+	rerun, reached  int
+	secondPassTimeS float64
+}
+
+// runAll: first pass on nw workers; histories whose timing stayed suspicious are run again
+// at the end on 2 workers with a 3 times longer client timeout (so that the margins are 3
+// times wider) and longer waits, within a time budget.
+func runAll(seed uint64, hs []*Hist, nw int, budget time.Duration) ([]Outcome, *runStats) {
 	outs := make([]Outcome, len(hs))
-	var wg sync.WaitGroup
-	next := make(chan int, len(hs))
+	st := &runStats{}
+	pass := func(idx []int, nw int, mk func(h *Hist) *job, deadline time.Time, sum *probeSum) int {
+		var wg sync.WaitGroup
+		var mu sync.Mutex
+		done := 0
+		next := make(chan int, len(idx))
+		for _, i := range idx {
+			next <- i
+		}
+		close(next)
+		for k := 0; k < nw; k++ {
+			wg.Add(1)
+			go func(k int) {
+				defer wg.Done()
+				wk := newProcWorker(fmt.Sprintf("c04-%d-%d", seed, k))
+				defer wk.stop()
+				for i := range next {
+					if !deadline.IsZero() && time.Now().After(deadline) {
+						continue
+					}
+					o := wk.runJob(mk(hs[i]))
+					mu.Lock()
+					outs[i] = o
+					sum.add(o)
+					done++
+					mu.Unlock()
+				}
+			}(k)
+		}
+		wg.Wait()
+		return done
+	}
+	all := make([]int, len(hs))
 	for i := range hs {
-		next <- i
+		all[i] = i
 	}
-	close(next)
-	for k := 0; k < nw; k++ {
-		wg.Add(1)
-		go func(k int) {
-			defer wg.Done()
-			wk := newProcWorker(fmt.Sprintf("c04-%d-%d", seed, k))
-			defer wk.stop()
-			for i := range next {
-				outs[i] = wk.run(hs[i])
-			}
-		}(k)
+	pass(all, nw, func(h *Hist) *job { return &job{H: h, Scale: 1} }, time.Time{}, &st.first)
+	var again []int
+	for i, o := range outs {
+		if o.Unstable && o.Crash == "" {
+			again = append(again, i)
+		}
 	}
-	wg.Wait()
-	return outs
+	st.rerun = len(again)
+	if len(again) > 0 {
+		t0 := time.Now()
+		st.reached = pass(again, 2, func(h *Hist) *job { return &job{H: h, Scale: 3, TimeoutMs: 600, Tries: 2} }, t0.Add(budget), &st.second)
+		st.secondPassTimeS = time.Since(t0).Seconds()
+	}
+	return outs, st
 }
 
 func modelFx() (np, rot, ann bool) {
@@ -177,7 +292,7 @@ func main() {
 		}
 		wk := newProcWorker("replay")
 		defer wk.stop()
-		out := wk.run(&h)
+		out := wk.runJob(&job{H: &h, Scale: 2, Tries: 3})
 		if out.Crash != "" {
 			fmt.Printf("THE WORKER PROCESS DIED running this history:\n%s\n", out.Crash)
 			c.Eval()
@@ -186,7 +301,7 @@ func main() {
 		}
 		for i, o := range out.Obs {
 			b, _ := json.Marshal(o)
-			ob, _ := json.Marshal(h.Ops[i])
+			ob, _ := json.Marshal(out.Eff[i])
 			fmt.Printf("op %d %s\n  -> %s\n", i, ob, b)
 		}
 		refs := &refCache{wk: wk, m: map[string]refVal{}}
@@ -218,7 +333,7 @@ func main() {
 	if nw > 12 {
 		nw = 12
 	}
-	outs := runAll(c.Seed, hs, nw)
+	outs, rst := runAll(c.Seed, hs, nw, time.Duration(c.Pick(25, 180))*time.Second)
 	tRun := time.Since(t0)
 
 	// direct oracles; one report per class, the first (smallest) history of the class
@@ -229,6 +344,7 @@ func main() {
 	groups := map[string][]vlib.Failure{}
 	var groupOrder []string
 	unstable := 0
+	var quietOverrun []int
 	for i, h := range hs {
 		out := outs[i]
 		c.Eval()
@@ -250,6 +366,11 @@ func main() {
 			}
 			reported[cl] = true
 			h2, rep := shrinkCrash(h)
+			if out.Hung && !rep {
+				// no answer once, fine twice in fresh processes: a starved machine, not a hang
+				c.Count("not-explored:hang-not-reproduced")
+				continue
+			}
 			g := "crash:" + h.Kind
 			if _, ok := groups[g]; !ok {
 				groupOrder = append([]string{g}, groupOrder...)
@@ -259,13 +380,17 @@ func main() {
 		}
 		if out.Unstable {
 			unstable++
-			c.Count("timing-unstable(skipped)")
+			c.Count("not-explored:timing")
+			if out.ProbeMaxMs <= 10 {
+				// the probe saw nothing, yet the history overran: the code, not the machine?
+				quietOverrun = append(quietOverrun, i)
+			}
 			continue
 		}
 		failedOps, refetched := 0, 0
 		for j, o := range out.Obs {
-			if opFailed(h.Ops[j], o) {
-				if os.Getenv("VERIF_C04_DIAG") != "" && noInjected(o) && h.Ops[j].HookFail < 0 && !h.Ops[j].DiscFail {
+			if opFailed(out.Eff[j], o) {
+				if os.Getenv("VERIF_C04_DIAG") != "" && noInjected(o) && out.Eff[j].HookFail < 0 && !out.Eff[j].DiscFail {
 					b, _ := json.Marshal(o)
 					fmt.Fprintf(os.Stderr, "DIAG %s op %d tries %d: %s\n", signature("x", h), j, out.Tries, b)
 				}
@@ -319,8 +444,22 @@ func main() {
 			break
 		}
 	}
-	if unstable*50 > len(hs) {
-		c.Fail("timing-unstable", fmt.Sprintf("%d of %d histories had suspicious timing in 3 attempts", unstable, len(hs)), nil)
+	// Histories whose timing could not be trusted are not explored: a loaded machine is not
+	// a violation.  Only when the scheduling probe says the workers ran undisturbed and
+	// histories still overran their time (again in the final pass on 2 workers with 3 times
+	// wider margins) is that reported, with the slowest such history as the replay.
+	c.Note(fmt.Sprintf("timing: first pass (%d workers): %s; %d histories run again at the end on 2 workers (client timeout 600 ms, longer waits; %d reached in %.1fs): %s; %d stayed suspicious and are not explored",
+		nw, rst.first.String(), rst.rerun, rst.reached, rst.secondPassTimeS, rst.second.String(), unstable))
+	if n := len(quietOverrun); n > 5 && n*100 > len(hs) && !rst.second.loaded() {
+		worst := quietOverrun[0]
+		for _, i := range quietOverrun {
+			if sumMillis(outs[i]) > sumMillis(outs[worst]) {
+				worst = i
+			}
+		}
+		c.Fail(signature("timing-overrun", hs[worst]),
+			fmt.Sprintf("%d of %d histories overran their time budget in every attempt although the worker processes ran undisturbed (%s); slowest: %s (%s)",
+				n, len(hs), rst.second.String(), histKey(hs[worst]), outs[worst].Why), hs[worst])
 	}
 	c.Note(fmt.Sprintf("harness: %d histories in %.1fs on %d workers; client timeout %v; model variant %q", len(hs), tRun.Seconds(), nw, fd.ClientTimeout, os.Getenv("VERIF_C04_MODEL")))
 	c.Res.Exhaustive = true
@@ -340,6 +479,9 @@ func opText(o fd.Op) string {
 	m := "E"
 	if o.Mode == "announce" {
 		m = "A"
+	}
+	if o.Mode == "announce2" {
+		m = fmt.Sprintf("A2<h%d>", o.Head2) // head2 announced while the sync of head is running
 	}
 	var fs []string
 	for _, f := range o.Faults {
@@ -472,7 +614,7 @@ func coqObs(op fd.Op, o fd.Obs) string {
 	if lat < 0 {
 		lat = 999
 	}
-	return fmt.Sprintf("(Build_seen_obs %s %s %s %s %s %s)", res, vlib.CoqList(evs), vlib.CoqNat(lat), coqNatList(o.Store), vlib.CoqList(lg), coqNatList(o.Hooks))
+	return fmt.Sprintf("(Build_seen_obs %s %s %s %s %s %s %s)", res, vlib.CoqList(evs), vlib.CoqNat(lat), coqNatList(o.Store), vlib.CoqList(lg), coqNatList(o.Hooks), vlib.CoqBool(o.Partial))
 }
 
 func coqCase(h *Hist, out Outcome) string {
@@ -482,9 +624,9 @@ func coqCase(h *Hist, out Outcome) string {
 	for i, a := range h.Alive {
 		al[i] = vlib.CoqBool(a)
 	}
-	hist := make([]string, len(h.Ops))
-	for i := range h.Ops {
-		hist[i] = "(" + coqOp(h.Ops[i], h.Kind) + ", " + coqObs(h.Ops[i], out.Obs[i]) + ")"
+	hist := make([]string, len(out.Eff))
+	for i := range out.Eff {
+		hist[i] = "(" + coqOp(out.Eff[i], h.Kind) + ", " + coqObs(out.Eff[i], out.Obs[i]) + ")"
 	}
 	pre := append([]int(nil), h.Cfg.Pre...)
 	sort.Ints(pre)
@@ -557,4 +699,12 @@ func crashDesc(h *Hist, out Outcome, reproduced bool) string {
 		rep = "NOT reproduced when run alone in a fresh process (history as it ran)"
 	}
 	return fmt.Sprintf("%s; %s: %s\n%s", what, rep, histKey(h), out.Crash)
+}
+
+func sumMillis(o Outcome) int {
+	n := 0
+	for _, x := range o.Obs {
+		n += x.Millis
+	}
+	return n
 }
